@@ -7,6 +7,7 @@
    (VOth (ot Int) (op Int)) (VList (ls Lst)) (VMap (mc (Array String Val))))
   ((LNil) (LCons (hd Val) (tl Lst)))))
 (declare-datatypes ((SLst 0)) (((SNil) (SCons (shd String) (stl SLst)))))
+(declare-datatypes ((SSlice 0)) (((SliceNil) (Slice (items SLst)))))   ; a Go []string: nil, or a (possibly empty) sequence
 (declare-datatypes ((RLst 0)) (((RNil) (RCons (rhd Int) (rtl RLst)))))
 (declare-datatypes ((ErrV 0)) (((NoErr) (E (etag Int)))))
 (define-sort MapC () (Array String Val))
@@ -35,6 +36,7 @@
 (define-fun-rec sldrop ((a SLst) (n Int)) SLst (ite (or ((_ is SNil) a) (<= n 0)) a (sldrop (stl a) (- n 1))))
 (define-fun-rec slset ((a SLst) (i Int) (x String)) SLst (ite ((_ is SNil) a) SNil (ite (<= i 0) (SCons x (stl a)) (SCons (shd a) (slset (stl a) (- i 1) x)))))
 (define-fun-rec smem ((x String) (a SLst)) Bool (ite ((_ is SNil) a) false (or (= x (shd a)) (smem x (stl a)))))
+(define-fun sitems ((x SSlice)) SLst (ite ((_ is Slice) x) (items x) SNil))
 ; ---- lists of references
 (define-fun-rec rapp ((a RLst) (b RLst)) RLst (ite ((_ is RNil) a) b (RCons (rhd a) (rapp (rtl a) b))))
 (define-fun rsnoc ((a RLst) (x Int)) RLst (rapp a (RCons x RNil)))
